@@ -30,6 +30,152 @@ func runC10(c *Ctx) {
 	r10_11(c, "R10.11")
 	r10_12(c, "R10.12")
 	r10_13(c, "R10.13")
+	r10_14(c, "R10.14")
+	r10_15(c, "R10.15")
+}
+
+// R10.14: every entry is put to every configured matcher.
+//
+// A verdict inherited from the parent directory is not the entry's own: an
+// exception ('!') can name a file inside an included directory, and Open asks
+// the matcher about exactly that file. With a matcher set, the report of an
+// entry is unreachable unless that matcher's MatchesUsingParentResults was
+// called in this invocation of the callback.
+func r10_14(c *Ctx, rule string) {
+	c.R.Rule(rule, "filterFS.Walk: with the include (exclude) matcher set, the report of the entry itself is reached only after that matcher was asked about the entry in the same invocation of the callback (no verdict is inherited from the parent directory)")
+	fw := getFilterWalk(c, rule)
+	if fw == nil {
+		return
+	}
+	lit := fw.lit
+	x := c.explorer(lit)
+	own := ownReports(c, fw)
+	if len(own) == 0 {
+		c.R.OK(rule, c.name(lit)+"/own-report", c.P.Pos(lit.Pos()), "no report of the entry's own stat of a shape this rule interprets: not decided")
+		return
+	}
+	isOwn := func(in ssa.Instruction) bool { return own[in] }
+	for _, e := range []struct {
+		name, field string
+		call        *ssa.Call
+	}{{"include", "fsutil.filterFS.includeMatcher", fw.incCall}, {"exclude", "fsutil.filterFS.excludeMatcher", fw.excCall}} {
+		set := map[string]bool{}
+		eng.Instrs(lit, func(in ssa.Instruction) {
+			bo, ok := in.(*ssa.BinOp)
+			if !ok || (bo.Op != token.EQL && bo.Op != token.NEQ) {
+				return
+			}
+			if k, isC := bo.Y.(*ssa.Const); isC && k.IsNil() && isFieldLoad(bo.X, e.field) {
+				set[x.RegKey(bo)] = bo.Op == token.NEQ
+			}
+		})
+		call := e.call
+		c.ObPrecedes(rule, c.name(lit)+"/"+e.name+"-matcher-asked", lit, set, func(in ssa.Instruction) bool { return in == ssa.Instruction(call) }, isOwn, "asking the "+e.name+" matcher about the entry", "the report of the entry (the "+e.name+" matcher is set)")
+	}
+}
+
+// ownReports: the calls of the user callback that report the entry the
+// callback was invoked for (its stat comes from dirEntry.Info()).
+func ownReports(c *Ctx, fw *filterWalk) map[ssa.Instruction]bool {
+	own := map[ssa.Instruction]bool{}
+	info := fw.infoCall.Value()
+	for _, call := range c.P.CallsTo(fw.lit, "freevar:fn") {
+		a := call.Common().Args
+		if len(a) < 2 {
+			continue
+		}
+		al, ok := eng.Strip(a[1]).(*ssa.Alloc)
+		if !ok {
+			continue
+		}
+		X := structLitFields(al)["Stat"]
+		if X != nil && info != nil && c.DerivesFrom(X, func(v ssa.Value) bool { return v == ssa.Value(info) }, 6) {
+			own[call] = true
+		}
+	}
+	return own
+}
+
+// R10.15: pending ancestors are looked for in the whole stack.
+//
+// Ancestors that matched nothing are reported late, when the first entry
+// below them is. Whether one is pending is recorded per directory (calledFn),
+// and a reported parent says nothing about its own ancestors: the map function
+// may have dropped a directory that matched directly, after it was marked. The
+// list the callback indexes is therefore the open-directories stack itself on
+// every branch, never a copy that is empty on some.
+func r10_15(c *Ctx, rule string) {
+	c.R.Rule(rule, "filterFS.Walk: every indexed read of open directories (the loop that reports pending ancestors included) indexes the open-directories stack itself on every alternative, never a list that is nil or empty on some branch")
+	fw := getFilterWalk(c, rule)
+	if fw == nil {
+		return
+	}
+	lit := fw.lit
+	isDirs := func(t types.Type) bool {
+		sl, ok := t.Underlying().(*types.Slice)
+		return ok && strings.HasSuffix(eng.TypeStr(sl.Elem()), "fsutil.visitedDir")
+	}
+	// 1 the stack (a load of a variable or field), 0 something else, -1 a constant (nil)
+	var classify func(v ssa.Value, d int, seen map[ssa.Value]bool) int
+	classify = func(v ssa.Value, d int, seen map[ssa.Value]bool) int {
+		if v == nil || d > 6 {
+			return 0
+		}
+		if seen[v] {
+			return 1
+		}
+		seen[v] = true
+		switch y := v.(type) {
+		case *ssa.Const:
+			return -1
+		case *ssa.UnOp:
+			if y.Op == token.MUL {
+				return 1
+			}
+		case *ssa.ChangeType:
+			return classify(y.X, d+1, seen)
+		case *ssa.Phi:
+			res := 1
+			for _, e := range y.Edges {
+				if r := classify(e, d+1, seen); r < res {
+					res = r
+				}
+			}
+			return res
+		case *ssa.Parameter:
+			if rs := eng.ResolveAll(y); len(rs) > 0 && !(len(rs) == 1 && rs[0] == v) {
+				res := 1
+				for _, r0 := range rs {
+					if r := classify(r0, d+1, seen); r < res {
+						res = r
+					}
+				}
+				return res
+			}
+		}
+		return 0
+	}
+	n := 0
+	defer c.scope(lit)()
+	eng.Instrs(lit, func(in ssa.Instruction) {
+		ia, ok := in.(*ssa.IndexAddr)
+		if !ok || !isDirs(ia.X.Type()) {
+			return
+		}
+		n++
+		con := fmt.Sprintf("%s/open-directories-read#%d", c.name(lit), n)
+		switch classify(ia.X, 0, map[ssa.Value]bool{}) {
+		case 1:
+			c.R.OK(rule, con, c.pos(ia), "indexes the open-directories stack")
+		case -1:
+			c.R.Fail(rule, con, c.pos(ia), "the list of open directories indexed here is nil on some branch (a short-cut that assumes nothing is pending?): an ancestor that was not reported yet - its parent was marked before the map function dropped it - is never reported, and entries below it appear without it")
+		default:
+			c.R.OK(rule, con, c.pos(ia), "the list indexed here is not a plain load of the stack (a shape this rule does not interpret): not decided")
+		}
+	})
+	if n == 0 {
+		c.R.OK(rule, c.name(lit)+"/open-directories-read", c.P.Pos(lit.Pos()), "the open-directories stack is not read by index in this callback: not decided")
+	}
 }
 
 // R10.13: which patterns keep an unselected directory open.
